@@ -4,7 +4,7 @@ over the progen prelude: tr, d, n, cm, E1, E2, G).
 
 Every program records the categories it uses (`features`) and is reproducible from its source text alone.
 """
-import random
+import random, warnings
 
 import progen
 
@@ -238,7 +238,9 @@ def unusual_programs(rng, n, exposed_fraction=0.08):
         src, used = unusual_program(rng, walrus_exposed=rng.random() < exposed_fraction)
         full = progen.PRELUDE + src
         try:
-            compile(full, '<c17gen>', 'exec')
+            with warnings.catch_warnings():
+                warnings.simplefilter('ignore')
+                compile(full, '<c17gen>', 'exec')
         except SyntaxError:
             continue
         made += 1
@@ -276,3 +278,66 @@ def exhaustive_snippets():
             except SyntaxError:
                 continue
             yield 'signature', hd + (doc or ''), progen.Program(full, [(1, 2, 3, [1, 2])], ['unusual', 'u:signature', 'u:docstring'], 'unusual')
+
+
+# ---------------------------------------------------------------- composite-state stream
+# Stores through LITERAL subscripts inside if/while/for/with/try bodies with the container live-in: qual_names gives
+# `a[<literal>]` a composite qualified name, control_flow then carries it through get_state/set_state, and the state
+# functions are built from `QN.ast()` — i.e. a node SYNTHESISED from the literal's value, which must print and re-parse
+# to itself (a `Constant(-1)` prints as `-1` and re-parses as `UnaryOp(USub, Constant(1))`).
+CS_INDICES = {
+    'neg-int': ['-1', '-2', '- 1', '-0'],
+    'pos-int': ['0', '1', '+1', '~0', '0x10', '10**2'],
+    'float': ['1.5', '-1.5', '1e3', '-0.0', '1.'],
+    'str': ["'k'", '"it\'s"', "'a' 'b'", "''", "'\\n'", "u'k'"],
+    'bytes': ["b'k'"],
+    'bool-none': ['True', 'False', 'None'],
+    'complex-ellipsis': ['1j', '-1j', '...'],
+    'tuple': ['(1, 2)', '1, -2', '()'],
+    'nested': ['0][-1', '-1][-1', "'k'][0", "'k']['j'", '0][1.5', '-1][a', 'a][-1', "True][None"],
+    'name-expr': ['a', '-a', 'a + 1', 'i0'],
+}
+CS_STORES = ['{X} = 5', '{X} += 1', '{X} = {X} + 1', '{X}, y = 1, 2', 'del {X}', '{X} -= -1', 'x = {X} = b', '{X} = [{X}]']
+CS_CORE_STORES = ['{X} = 5', '{X} += 1']
+CS_BODIES = {
+    'if': 'if c:\n{S}',
+    'if-else': 'if c:\n{S}\nelse:\n    y = 0',
+    'while': 'while d():\n{S}\n    if a:\n        break',
+    'for': 'for i0 in n():\n{S}',
+    'for-if': 'for i0 in n():\n    if i0:\n    {S}',
+    'with': 'with cm(1):\n    if c:\n    {S}',
+    'try': 'try:\n    if c:\n    {S}\nfinally:\n    y = 1',
+    'nested-def': 'def g():\n    if c:\n    {S}\n    return m\ng()',
+}
+CS_CORE_BODIES = ['if', 'while', 'for']
+CS_CORE_INDICES = ['neg-int', 'float', 'str', 'bool-none', 'nested']
+
+
+def _cs_program(idx, store, body):
+    # `m` holds anything: a dict whose values are again dicts/lists, so every index form is at least plausible
+    x = 'm[%s]' % idx
+    st = store.replace('{X}', x)
+    blk = CS_BODIES[body].replace('{S}', '    ' + st)
+    src = ('def f(a, b, c, l):\n    x = a\n    y = b\n    i0 = 0\n    m = {0: [l, l], -1: [l, l], \'k\': {0: l, \'j\': l}, a: [a, b], True: {None: 0}}\n'
+           + indent(blk) + '\n    return m, l\n')
+    return progen.PRELUDE + src
+
+
+def composite_state_programs():
+    """-> (core: bool, category, description, Program).  core = negative/float/string/bool-None/nested indices x plain and
+    augmented store x if/while/for body (always run); the rest of the product is stride-sampled by the caller."""
+    import warnings
+    for cat in sorted(CS_INDICES):
+        for idx in CS_INDICES[cat]:
+            for store in CS_STORES:
+                for body in sorted(CS_BODIES):
+                    full = _cs_program(idx, store, body)
+                    try:
+                        with warnings.catch_warnings():
+                            warnings.simplefilter('ignore')
+                            compile(full, '<c17gen>', 'exec')
+                    except SyntaxError:
+                        continue
+                    core = cat in CS_CORE_INDICES and store in CS_CORE_STORES and body in CS_CORE_BODIES
+                    yield core, cat, '%s | %s | %s' % (idx, store, body), progen.Program(
+                        full, [(1, 2, 3, [1, 2])], ['composite_state', 'cs:' + cat, 'cs:' + body], 'composite')
